@@ -72,6 +72,13 @@ def register(gen, T):
             "if gv_ir.static_sampler.is_some() && gv_ir.lang_slot.index.is_some() { "
             "return Err(TyperError::StaticSamplerUnexpectedBindingIndex( name.location, )); } "
             "defs.push(ir::RootDefinition::GlobalVariable(var_id)); } Ok(defs)")
+        ATTR_FN = ('let mut result = GlobalAttributeResult { binding_index_override: None, binding_group_override: None, is_bindless: false, }; for attribute in attributes { match attribute.name.as_slice() { [namespace, leaf] => { match namespace.node.as_str() { "rssl" => { match leaf.as_str() { "bind_group" => { if attribute.arguments.len() == 1 { let group_index = parse_expr_as_u32(&attribute.arguments[0], context)?; result.binding_group_override = Some(group_index); } else { return Err( TyperError::GlobalAttributeUnexpectedArgumentCount( leaf.node.clone(), leaf.location, ), ); } } "bindless" => { if attribute.arguments.is_empty() { result.is_bindless = true; } else { return Err( TyperError::GlobalAttributeUnexpectedArgumentCount( leaf.node.clone(), leaf.location, ), ); } } _ => { return Err(TyperError::GlobalAttributeUnknown( leaf.node.clone(), leaf.location, )); } } } "vk" => { match leaf.as_str() { "binding" => { if attribute.arguments.len() == 1 { let binding_index = parse_expr_as_u32(&attribute.arguments[0], context)?; result.binding_index_override = Some(binding_index); } else if attribute.arguments.len() == 2 { let binding_index = parse_expr_as_u32(&attribute.arguments[0], context)?; let group_index = parse_expr_as_u32(&attribute.arguments[1], context)?; result.binding_index_override = Some(binding_index); result.binding_group_override = Some(group_index); } else { return Err( TyperError::GlobalAttributeUnexpectedArgumentCount( leaf.node.clone(), leaf.location, ), ); } } _ => { return Err(TyperError::GlobalAttributeUnknown( leaf.node.clone(), leaf.location, )); } } } _ => { return Err(TyperError::GlobalAttributeUnknown( namespace.node.clone(), namespace.location, )); } } } [first, ..] => { return Err(TyperError::GlobalAttributeUnknown( first.node.clone(), first.location, )); } _ => panic!("Attribute with no name"), } } Ok(result)')
+        U32_FN = ('let expr_ir = parse_expr(expr, context)?.0; let evaluated = match evaluate_constexpr(&expr_ir, &mut context.module) { Ok(value) => value, Err(_) => return Err(TyperError::ExpressionIsNotConstantExpression(expr.location)), }; let value = match evaluated.to_uint64() { Some(v) if v <= u32::MAX as u64 => v as u32, _ => return Err(TyperError::ExpressionIsNotConstantExpression(expr.location)), }; Ok(value)')
+        # the storage-class loop of parse_globaltype (Model.SlotsFront.storageLoop / isExternStorage)
+        STORAGE_LOOP = ('let mut global_storage = None; for modifier in &global_type.modifiers.modifiers { let next_gs = match &modifier.node { ast::TypeModifier::Extern => ir::GlobalStorage::Extern, ast::TypeModifier::Static => ir::GlobalStorage::Static, ast::TypeModifier::GroupShared => ir::GlobalStorage::GroupShared, _ => continue, }; if let Some((current_gs, current_source)) = global_storage { if current_gs == next_gs { } else { return Err(TyperError::ModifierConflict( modifier.node, modifier.location, current_source, )); } } else { global_storage = Some((next_gs, modifier.node)); } } let global_storage = global_storage .map(|(gs, _)| gs) .unwrap_or(ir::GlobalStorage::Extern);')
+        CB_BINDLESS_TAIL = ('if attribute_result.is_bindless { let location = cb .attributes .iter() .filter_map(|attribute| attribute.name.last()) .find(|leaf| leaf.node == "bindless") .map(|leaf| leaf.location) .unwrap_or(cb_ir.name.location); return Err(TyperError::GlobalAttributeUnknown( String::from("bindless"), location, )); } cb_ir.members = members; context.insert_cbuffer(id)?; Ok(ir::RootDefinition::ConstantBuffer(id))')
+        ty_storage = normws(fn_body(ty_src, "parse_globaltype"))
+        ty_u32 = normws(fn_body(ty_src, "parse_expr_as_u32"))
         gv_fresh = ("let var_id = context.insert_global(name.clone(), type_id, storage_class)?; "
                     "let gv_ir = &mut context.module.global_registry[var_id.0 as usize]; ")
         cb_ann_loop = (
@@ -176,20 +183,20 @@ def register(gen, T):
                 r'if storage_class != ir::GlobalStorage::Extern \{ return Err\(TyperError::StaticSamplerUnexpectedStorageClass\( name\.location, \)\); \} \} '
                 r'else \{ var_init = parse_initializer_opt\(', ty_gv) is not None
                 and ty_gv.find("StaticSamplerUnexpectedStorageClass") < ty_gv.find("context.insert_global(")),
-            ("attributeFoldLaterWins", lambda: ty_attr.startswith(
-                "let mut result = GlobalAttributeResult { binding_index_override: None, binding_group_override: None, is_bindless: false, }; "
-                "for attribute in attributes { match attribute.name.as_slice() { [namespace, leaf] => { match namespace.node.as_str() {")
-                and ty_attr.endswith("Ok(result)")
-                and re.findall(r'result\.(\w+) = ([^;]*);', ty_attr) == [
-                    ("binding_group_override", "Some(group_index)"), ("is_bindless", "true"),
-                    ("binding_index_override", "Some(binding_index)"), ("binding_index_override", "Some(binding_index)"),
-                    ("binding_group_override", "Some(group_index)")]
-                and re.findall(r'"(\w+)" =>', ty_attr) == ["rssl", "bind_group", "bindless", "vk", "binding"]
-                and len(re.findall(r'let mut ', ty_attr)) == 1),
+            # the whole attribute loop, statement by statement (Model.SlotsFront.attrLoop / attrStep): the result starts
+            # empty, every well-formed attribute overwrites its field(s), every other shape returns an error
+            ("attributeFoldLaterWins", lambda: ty_attr == ATTR_FN and ty_u32 == U32_FN),
+            ("storageClassLoopShape", lambda: ty_storage.count(STORAGE_LOOP) == 1
+                and ty_storage.startswith("let mut ty = parse_type_for_usage(global_type, TypePosition::Global, context)?; " + STORAGE_LOOP)
+                and ty_storage.endswith("Ok((ty, global_storage))")
+                and ty_gv.startswith("let (base_id, storage_class) = parse_globaltype(&gv.global_type, context)?;")
+                and len(re.findall(r'storage_class', ty_gv)) == 3),
             ("cbufferAnnotationLoopShape", lambda: ty_cb.count(cb_ann_loop) == 1
                 and ty_cb.startswith("let attribute_result = parse_attributes_for_global(&cb.attributes, context)?;")
                 and re.search(r'context\.module\.cbuffer_registry\.push\(ir::ConstantBuffer \{[^}]*lang_binding: ir::LanguageBinding::default\(\),[^}]*\}\); '
                               r'let cb_ir = &mut', ty_cb) is not None
+                and ty_cb.endswith(cb_ann_loop[-len("if attribute_result.is_bindless {"):] + CB_BINDLESS_TAIL[len("if attribute_result.is_bindless {"):])
+                and ty_cb.endswith(CB_BINDLESS_TAIL)
                 and len(re.findall(r'lang_binding', ty_cb)) == 6
                 and len(re.findall(r'parse_attributes_for_global\(', normws(ty_src))) == 3),
             ("typerDefaultBindGroupProperty", lambda: re.search(r'default_bind_group_index: 0,', ty_pipes) is not None
